@@ -72,7 +72,10 @@ def run_impl(pg, fam="int"):
                 C.warmup(P, lambda: pag_to_mag(P), layers=("circle", "directed", "bidirected", "undirected"))
     except C.CallTimeout:
         P = build_pag(pg, lab)
-    corder = [(lab.inv(a), lab.inv(b)) for a, b in set(P.copy().circle_edges)]
+    try:
+        corder = [(lab.inv(a), lab.inv(b)) for a, b in set(P.copy().circle_edges)]
+    except Exception:  # copy() is not the function under test here; the literal model then gets P's own order
+        corder = [(lab.inv(a), lab.inv(b)) for a, b in set(P.circle_edges)]
     before = C.snapshot(P)
     try:
         with C.time_limit(20):
